@@ -145,3 +145,50 @@ def standard_run(ctx, module, theorems, witnesses, quick_n=(3000, 3000), thoroug
 
 def names(prop):
     return [l.strip() for l in open(os.path.join(VERIF, "props", prop + ".theorems")) if l.strip() and not l.startswith("#")]
+
+
+# ---------------------------------------------------------------- liveness (C05 / C06)
+LIVE_RX = re.compile(r"blocked-op-enabled-at-quiescence sig=(\S*)")
+
+def liveness_tie(ctx, name, cmd, drv):
+    """Tie with the quiescence requirement (`fvdrv_chan --liveness`): a history that ended in a deadlock must
+    have a linearization in whose final state every never-returned operation is disabled.  The model's
+    `Enabled` is the property's (exact occupancy, senders/receivers gone), so the open lost-wakeup findings
+    (F14, F18, F2) show up here as `blocked-op-enabled-at-quiescence sig=<flavour>:<form>:<shape>` mismatches.
+    They are turned into monitor failures under the harness' signature scheme, so that they are reported as
+    KNOWN-FINDING only if that signature belongs to an open finding of the property being checked, and as a
+    VIOLATION otherwise.  Cases whose blocked operation belongs to the sibling property (C05: sync flavours,
+    C06: *_async flavours and futures) are left to that property's check."""
+    t = ctx.tie(name, cmd, [drv, "--liveness"])
+    keep = []
+    for cid, line in t.mismatches:
+        m = LIVE_RX.search(line)
+        if not m:
+            keep.append((cid, line)); continue
+        sigs = [x for x in m.group(1).split(",") if x]
+        mine = [x for x in sigs if prop_of(x) == ctx.prop]
+        if not sigs:
+            keep.append((cid, line)); continue
+        fired = {s for c, s, _ in t.monitor_fails if c == cid}
+        for x in mine:
+            if x not in fired:
+                t.monitor_fails.append((cid, x, "checker: never-returned operation is enabled in the final state of every linearization (" + line[:160] + ")"))
+        if not mine:
+            ctx.notes.append("tie %s case %s: blocked-enabled operation belongs to the sibling liveness property (%s)" % (name, cid, ",".join(sigs)))
+    t.mismatches = keep
+    return classify(ctx, t)
+
+def layer_b(ctx, mods):
+    """Step-level (layer B) obligations and atomic-action ties of the lock-free cores, provided by other modules."""
+    import importlib
+    for mod in mods:
+        p = os.path.join(VERIF, "props", mod + ".py")
+        if not os.path.exists(p):
+            ctx.notes.append("layer-B module props/%s.py not present yet" % mod); continue
+        try:
+            m = importlib.import_module(mod)
+            if hasattr(m, "obligations"): m.obligations(ctx)
+            elif hasattr(m, "THEOREMS") and hasattr(m, "MODULE"): ctx.lean_obligations(m.MODULE, m.THEOREMS)
+            if hasattr(m, "tie"): m.tie(ctx)
+        except Exception as e:
+            ctx.proof_failures.append({"module": mod, "error": "layer-B module failed", "log": repr(e)[:1500]})
